@@ -75,21 +75,22 @@ Theorem C08_sequence : forall cs m m' W x0 xs,
 Proof. exact workflow_seq. Qed.
 Print Assumptions C08_sequence.
 
-(* ... continued through any degree reduction of the constrained model and convert_solution *)
+(* ... continued through any degree reduction of the constrained model and convert_solution; the bookkeeping invariant of the
+   objective model (true of every model built by the constructor and the C14 edits) is all that is assumed about it *)
 Theorem C08_sequence_reduced : forall cs m m' W x0 out deg l pairs D s,
   run_ok m cs = Ok m' -> bkind (kd m) -> no_anc (tm m) -> Forall call_ok cs ->
   let f := fun x => eval x (tm m) in
   (forall x x', boolean_env x -> boolean_env x' -> f x - f x' <= W) ->
   (forall c, In c cs -> W < cc_lam c) ->
   boolean_env x0 -> (forall c, In c cs -> cR c x0) ->
-  reduce_degree m' out deg l pairs = Ok D -> bmat out -> Inv m' -> is_labelled (kd m') = true ->
+  reduce_degree m' out deg l pairs = Ok D -> bmat out -> Inv m -> is_labelled (kd m) = true ->
   (forall ms, mapped_self (mp m') (tm m') = Ok ms -> forall k v, In (k, v) ms -> Qabs v <= lam_fun l v) ->
   boolean_env s -> (forall s', boolean_env s' -> eval s (tm D) <= eval s' (tm D)) ->
   let xs := pull (mp m') s in
   (forall c, In c cs -> cR c xs) /\
   (forall x, boolean_env x -> (forall c, In c cs -> cR c x) -> f xs <= f x) /\
   eval s (tm D) == f xs.
-Proof. exact workflow_seq_reduced. Qed.
+Proof. exact workflow_seq_reduced_inv. Qed.
 Print Assumptions C08_sequence_reduced.
 
 (* non-vacuity: minimise -x0 - x1 - x2 subject to x0 + x1 + x2 - 2 <= 0 with weight 4 > 3 = spread *)
